@@ -428,6 +428,73 @@ pub mod synth_body {
     }
 }
 
+/// Responses whose success status is not 200: every status the macro lets an endpoint declare must
+/// be accepted by the receiving side (2xx and 3xx are success; >= 400 is the error path).
+pub mod synth_status {
+    use http::header::LOCATION;
+    use ruma_common::{
+        api::{request, response, Metadata},
+        metadata,
+    };
+    const METADATA: Metadata = metadata! {
+        method: POST,
+        rate_limited: false,
+        authentication: None,
+        history: {
+            1.0 => "/_matrix/synth/v1/status",
+        }
+    };
+    #[request]
+    pub struct Request {}
+    #[response(status = FOUND)]
+    pub struct Response {
+        #[ruma_api(header = LOCATION)]
+        pub location: String,
+        #[ruma_api(body)]
+        pub whole: super::synth_body::Nested,
+    }
+    pub mod created {
+        use ruma_common::{
+            api::{request, response, Metadata},
+            metadata,
+        };
+        const METADATA: Metadata = metadata! {
+            method: PUT,
+            rate_limited: false,
+            authentication: None,
+            history: {
+                1.0 => "/_matrix/synth/v1/status/created",
+            }
+        };
+        #[request]
+        pub struct Request {}
+        #[response(status = CREATED)]
+        pub struct Response {
+            pub text: String,
+        }
+    }
+    pub mod see_other {
+        use ruma_common::{
+            api::{request, response, Metadata},
+            metadata,
+        };
+        const METADATA: Metadata = metadata! {
+            method: PUT,
+            rate_limited: false,
+            authentication: None,
+            history: {
+                1.0 => "/_matrix/synth/v1/status/see_other",
+            }
+        };
+        #[request]
+        pub struct Request {}
+        #[response(status = SEE_OTHER)]
+        pub struct Response {
+            pub text: String,
+        }
+    }
+}
+
 pub mod synth_newtype_raw {
     use http::header::CONTENT_TYPE;
     use ruma_common::{
@@ -583,11 +650,31 @@ fn synth_oracle_inner(c: &SynthCase, cx: &mut CaseCtx) -> Result<(), String> {
                 }
                 cx.class("synthetic_request_roundtrip");
             }
-            let resp = synth_body::Response { whole: nested };
+            let resp = synth_body::Response { whole: nested.clone() };
             let want = format!("{resp:?}");
             if let Some(r2) = response_roundtrip(resp, cx)? {
                 if format!("{r2:?}") != want {
                     return Err(format!("response changed on the wire: sent {want}, received {r2:?}"));
+                }
+            }
+            // declared non-200 success statuses
+            let resp = synth_status::Response { location: g(2), whole: nested };
+            let want = format!("{resp:?}");
+            if let Some(r2) = response_roundtrip(resp, cx)? {
+                if format!("{r2:?}") != want {
+                    return Err(format!("302 response changed on the wire: sent {want}, received {r2:?}"));
+                }
+                cx.class("non_200_success_status");
+            }
+            for created in [true, false] {
+                let want = g(1);
+                let got = if created {
+                    response_roundtrip(synth_status::created::Response { text: g(1) }, cx)?.map(|r| r.text)
+                } else {
+                    response_roundtrip(synth_status::see_other::Response { text: g(1) }, cx)?.map(|r| r.text)
+                };
+                if got.is_some_and(|t| t != want) {
+                    return Err("201/303 response changed on the wire".into());
                 }
             }
         }
@@ -763,6 +850,17 @@ fn real_oracle(c: &RealCase, cx: &mut CaseCtx) -> Result<(), String> {
             });
             request_roundtrip(req, &v, cx)?;
             cx.class("real_client");
+            // the SSO redirect: a real response with a declared 302 status and header fields
+            let ascii = |s: &str| s.chars().filter(|ch| ch.is_ascii_graphic()).collect::<String>();
+            let mut resp = capi::session::sso_login::v3::Response::new(format!("https://sso.example/{}", ascii(&c.s2)));
+            resp.cookie = if c.n % 2 == 0 { Some(format!("k={}", ascii(&c.s1))) } else { None };
+            let want = format!("{resp:?}");
+            if let Some(r2) = response_roundtrip(resp, cx)? {
+                if format!("{r2:?}") != want {
+                    return Err(format!("sso_login response changed on the wire: sent {want}, received {r2:?}"));
+                }
+                cx.class("non_200_success_status");
+            }
         }
         9 => {
             // client error as a response, incl. M_LIMIT_EXCEEDED with whole-second Retry-After
@@ -986,12 +1084,12 @@ pub fn run(ck: &mut Check) {
     }
     let n = ck.n(120_000, 4_000_000);
     ck.prop("synthetic_endpoints", n, synth_case, synth_oracle);
-    for cls in ["synthetic_request_roundtrip", "reserved_char_in_field", "percent_in_field", "empty_multi_valued_query", "multi_valued_query"] {
+    for cls in ["synthetic_request_roundtrip", "reserved_char_in_field", "percent_in_field", "empty_multi_valued_query", "multi_valued_query", "non_200_success_status"] {
         ck.floor("synthetic_endpoints", cls, 2000);
     }
     let n = ck.n(60_000, 2_000_000);
     ck.prop("real_endpoints", n, real_case, real_oracle);
-    for cls in ["real_client", "real_federation", "real_appservice", "real_push_gateway", "real_error_response", "reserved_char_in_field"] {
+    for cls in ["real_client", "real_federation", "real_appservice", "real_push_gateway", "real_error_response", "reserved_char_in_field", "non_200_success_status"] {
         ck.floor("real_endpoints", cls, 500);
     }
     let n = ck.n(60_000, 2_000_000);
